@@ -228,55 +228,66 @@ def build_harness(profile="release"):
 # ---------------------------------------------------------------------------------------------
 # step 4: correspondence
 
-def _exec_batch(exe, mode, text, timeout):
-    try:
-        p = subprocess.run([exe, mode], input=text, stdout=subprocess.PIPE, stderr=subprocess.PIPE, env=ENV,
-                           timeout=timeout, text=True)
-    except subprocess.TimeoutExpired:
-        return None, "timeout"
-    if p.returncode != 0:
-        return None, "exit %d: %s" % (p.returncode, p.stderr[-300:])
-    return p.stdout.split("\n"), None
-
-def split_outputs(lines):
-    """Splits an output stream on `=== id` separator lines into {id: [lines]}."""
-    cases = {}; cur = None
-    for ln in lines:
+def _stream_batch(exe, mode, cases, stall_timeout):
+    """Feeds the cases to one process and reads its output as it comes. Returns ({id: lines}, status, current id):
+    status None = finished; 'hang' = no output for `stall_timeout` s; 'abort' = the process died."""
+    import threading, queue
+    text = "".join("=== %s\n%s\n" % (cid, "\n".join(ops)) for cid, ops in cases)
+    p = subprocess.Popen([exe, mode, "--interactive"], stdin=subprocess.PIPE, stdout=subprocess.PIPE, stderr=subprocess.DEVNULL, env=ENV, text=True)
+    q = queue.Queue()
+    def feed():
+        try:
+            p.stdin.write(text); p.stdin.close()
+        except (BrokenPipeError, OSError):
+            pass
+    def read():
+        for ln in p.stdout:
+            q.put(ln.rstrip("\n"))
+        q.put(None)
+    threading.Thread(target=feed, daemon=True).start()
+    threading.Thread(target=read, daemon=True).start()
+    res = {}; cur = None; status = None
+    while True:
+        try:
+            ln = q.get(timeout=stall_timeout)
+        except queue.Empty:
+            status = "hang"; break
+        if ln is None:
+            break
         if ln.startswith("==="):
-            cur = ln[3:].strip(); cases[cur] = []
+            cur = ln[3:].strip(); res[cur] = []
         elif cur is not None and ln != "":
-            cases[cur].append(ln)
-    return cases
+            res[cur].append(ln)
+    if status == "hang":
+        p.kill()
+    p.wait()
+    if status is None and p.returncode != 0:
+        status = "abort"
+    return res, status, cur
 
 def run_cases(exe, mode, cases, timeout=300, per_case_timeout=20):
     """cases: list of (id, [op lines]). Returns {id: [output lines]}; a case whose execution hangs
-    or kills the process yields the outputs obtained so far plus a final `hang`/`abort` line."""
-    text = "".join("=== %s\n%s\n" % (cid, "\n".join(ops)) for cid, ops in cases)
-    lines, err = _exec_batch(exe, mode, text, timeout)
-    if err is None:
-        return split_outputs(lines)
-    if len(cases) == 1:
-        cid, ops = cases[0]
-        # find the offending line by running growing prefixes (binary search on the first failing prefix)
-        lo, hi = 0, len(ops)   # prefix of length lo is fine, hi fails
-        kind = "hang" if err == "timeout" else "abort"
-        while hi - lo > 1:
-            mid = (lo + hi) // 2
-            t = "=== %s\n%s\n" % (cid, "\n".join(ops[:mid]))
-            l2, e2 = _exec_batch(exe, mode, t, per_case_timeout)
-            if e2 is None:
-                lo = mid
-            else:
-                hi = mid
-        t = "=== %s\n%s\n" % (cid, "\n".join(ops[:lo]))
-        l2, e2 = _exec_batch(exe, mode, t, per_case_timeout)
-        outs = split_outputs(l2).get(cid, []) if e2 is None else []
-        return {cid: outs + [kind]}
-    mid = len(cases) // 2
-    a = run_cases(exe, mode, cases[:mid], timeout=max(per_case_timeout, timeout // 2), per_case_timeout=per_case_timeout)
-    b = run_cases(exe, mode, cases[mid:], timeout=max(per_case_timeout, timeout // 2), per_case_timeout=per_case_timeout)
-    a.update(b)
-    return a
+    or kills the process yields the outputs obtained so far plus a final `hang`/`abort` line; the
+    remaining cases are continued in a fresh process."""
+    out = {}
+    todo = list(cases)
+    while todo:
+        res, status, cur = _stream_batch(exe, mode, todo, per_case_timeout)
+        ids = [cid for cid, _ in todo]
+        if status is None:
+            out.update(res)
+            break
+        # everything before the offending case is complete
+        k = ids.index(cur) if cur in ids else 0
+        for cid in ids[:k]:
+            out[cid] = res.get(cid, [])
+        nops = len(todo[k][1])
+        got = res.get(ids[k], [])
+        out[ids[k]] = got[:nops] + ([status] if len(got) < nops or status == "abort" else [])
+        todo = todo[k + 1:]
+    for cid, _ in cases:
+        out.setdefault(cid, ["<missing>"])
+    return out
 
 def correspond(mode, cases, exe=None, timeout=600, per_case_timeout=20, jobs=8):
     """Runs the cases on implementation and model; returns (impl_out, model_out, disagreements).
@@ -297,6 +308,8 @@ def correspond(mode, cases, exe=None, timeout=600, per_case_timeout=20, jobs=8):
         for i in range(n):
             x = a[i] if i < len(a) else "<none>"
             y = b[i] if i < len(b) else "<none>"
+            if x == y and x in ("hang", "abort"):
+                break          # both sides end here (the killed implementation prints nothing further)
             if x != y:
                 dis.append((cid, i, ops[i] if i < len(ops) else "<eof>", x, y))
                 break
